@@ -239,6 +239,24 @@ ASSUME['C19'] = []
 EXHAUSTIVE = {}
 
 
+def twr_run(focus, quick, thorough, props, variant='plain', engine='coop', name=None, env=None):
+    return dict(harness='h_twr', variant=variant, args=['--engine', engine, '--focus', focus], quick=quick, thorough=thorough, props=props, name=name or ('twr-' + focus + '-' + engine), env=env or {})
+
+
+TSAN_ENV = {'TSAN_OPTIONS': 'halt_on_error=0:exitcode=66:second_deadlock_stack=1:history_size=4'}
+CHECKS['C06'] = [twr_run('c06', 400, 40000, ['C06']), twr_run('c06', 8, 200, ['C06'], variant='tsan', engine='real', env=TSAN_ENV)]
+LEVELS['C06'] = 'exploration'
+RULES['C06'] = 'case = program (1-2 application threads, 10-120 calls mixing fsr of several signals/widths, annotation, utc, user data, omit, flush; message sizes chosen against a queue of 160 B - 64 KiB so that wrap, empty-reset, full and rejection occur; drop-on-overflow on/off) x schedule (policy random / PCT depth 0-3 / starve-consumer / starve-producer / round-robin, virtual-time jump probability 0 - 1). Controlled scheduler at every lock/unlock/wait/signal/sleep point of the real code; file must decode, equal the submission model applied in queue order and equal a literal synchronous-writer reference; lockset monitor on queue and writer state; queue regions checked at the real call sites. Plus real-thread runs under ThreadSanitizer with seeded delay injection. distinct = configuration x schedule signature'
+ASSUME['C06'] = ['schedules are produced at synchronisation/suspension-point granularity (seeded policies), not exhaustively; instruction-level interleavings only through ThreadSanitizer on real threads',
+                 'ThreadSanitizer reports whose two racing source lines only touch the polled control words flush_processed_id / quit / bk of jls_twr_s are not counted (they are neither queue nor file state; the C07 flush oracle checks the behaviour they implement)',
+                 'the queue size is shrunk through the JLS_VERIF hook; with the 64 MiB default none of wrap/full/reject is reachable'] + DECODER_ASSUMPTIONS
+CHECKS['C07'] = [twr_run('c07', 400, 40000, ['C07'])]
+LEVELS['C07'] = 'exploration'
+RULES['C07'] = 'case = flush-heavy program (a unique marker message before every checked flush; flush and close at every position; 1-2 producers; queues small enough to be full) x schedule (as C06, incl. consumer starvation with virtual-time jumps so that the 5 s send and 20 s flush time-outs are reached). At the instant jls_twr_flush returns 0 the I/O log must contain the marker write followed by an fsync; at jls_twr_close return the descriptor is closed and the file decodes and holds every accepted call (C06 oracle); an empty enabled set with unfinished threads = deadlock (reported with its wait-for state); a call exceeding 400k scheduling points = no progress. distinct = configuration x schedule signature'
+ASSUME['C07'] = ['liveness is judged in logical steps under virtual time, never by wall clock; "forever" = no enabled thread and no sleeper, or step budget exhausted',
+                 'error returns (BUSY, TIMED_OUT) are legal outcomes of flush/send under starvation and only relax what must be on disk']
+
+
 def simple_run(harness, name, quick, thorough, props, variant='plain', extra=()):
     return dict(harness=harness, variant=variant, args=list(extra), quick=quick, thorough=thorough, props=props, name=name)
 
@@ -296,6 +314,44 @@ def frame_of(stderr):
         if fm:
             frame = fm.group(1)
     return kind, frame
+
+
+CONTROL_WORDS = ('flush_processed_id', 'flush_send_id', '->quit', '->bk')
+
+
+def src_line(fname, line):
+    try:
+        with open(os.path.join(REPO, 'src', fname)) as f:
+            return f.readlines()[int(line) - 1]
+    except Exception:
+        return ''
+
+
+def tsan_keys(stderr):
+    """one (key, message) per ThreadSanitizer report that is not on the control-word allow-list"""
+    out = []
+    for rep in stderr.split('WARNING: ThreadSanitizer: ')[1:]:
+        kind = rep.split('\n', 1)[0].split('(')[0].strip()
+        frames = []
+        inlib = True
+        for m in re.finditer(r'(?:Previous )?(?:[Ww]rite|[Rr]ead|[Aa]tomic \w+) of size \d+[^\n]*\n((?:\s+#\d+[^\n]*\n)+)', rep):
+            fm = re.search(r'#\d+ (\w+) (?:/repo|' + re.escape(REPO) + r')/src/([\w.]+):(\d+)', m.group(1))
+            if fm:
+                frames.append((fm.group(1), fm.group(2), fm.group(3)))
+            else:
+                inlib = False
+        frames = frames[:2]
+        if kind == 'data race' and not frames:
+            # both accesses are in harness code: a defect of the harness, not of jls -> make it loud as a harness failure key
+            out.append(('tsan-harness|data race', 'ThreadSanitizer: race inside the harness itself\n' + rep[:1200]))
+            continue
+        if kind == 'data race' and len(frames) == 2:
+            lines = [src_line(f[1], f[2]) for f in frames]
+            if all(any(w in ln for w in CONTROL_WORDS) and 'mrb' not in ln and '->wr' not in ln for ln in lines):
+                continue
+        fk = '+'.join(sorted('%s@%s' % (f[0], f[1]) for f in frames)) or '-'
+        out.append(('tsan|%s|%s' % (kind, fk), 'ThreadSanitizer: %s between %s\n%s' % (kind, fk, rep[:1500])))
+    return out
 
 
 def run_check(prop, tier, seed, jobs, replay=None):
@@ -388,6 +444,14 @@ def run_check(prop, tier, seed, jobs, replay=None):
                         abnormal += 1
                         if rec['how'] == 'wall':
                             inconclusive += 1
+                            continue
+                        if 'ThreadSanitizer' in rec.get('stderr', ''):
+                            for key, msg in tsan_keys(rec['stderr']):
+                                k = (prop, key)
+                                violn[k] = violn.get(k, 0) + 1
+                                if k not in viol:
+                                    viol[k] = {'p': prop, 'k': key, 'm': msg, 'seed': rec['seed'], 'idx': rec['idx'], 'check': rec.get('check'), 'run': run['name'], 'w': {'ctx': rec.get('ctx')}}
+                            counts['tsan_reports_seen'] = counts.get('tsan_reports_seen', 0) + rec['stderr'].count('WARNING: ThreadSanitizer')
                             continue
                         kind, frame = frame_of(rec.get('stderr', ''))
                         key = 'abnormal|%s|%s|%s|%s' % (rec['how'] if rec['how'] != 'signal 6' or not kind else 'sanitizer', kind or '-', frame or '-', rec.get('api') or '-')
